@@ -246,9 +246,44 @@ def rule_fresh(ctx: Ctx):
     for a, v in want.items():
         rep.check(got.get(a) == v, "C16.fresh", init.loc(), f"every class gets its own fresh `{a}` (not the base class's)", init.key, f"cls.{a} = {got.get(a)}")
     st = ctx.p.cls("States").method("__init__")
-    src = [norm_stmt(n) for n in own_nodes(st.node) if isinstance(n, (ast.Assign, ast.AnnAssign))]
-    rep.check(any("states if states is not None else {}" in s_ for s_ in src), "C16.fresh", st.loc(), "States() without argument owns a fresh dict (no shared default)",
-              st.key, "; ".join(src))
+    # path-based: when no mapping is given (None-test), what is stored is a dict created in this call; otherwise the argument
+    prm = st.params[1] if len(st.params) > 1 else "states"
+    seen_fresh = seen_given = False
+    bad = []
+    for p in ctx.paths(st, inline=None, exc_edges="none"):
+        evs = p.events
+        stores = [e for e in p.of("store") if e.x.get("attr") == "_states" and show(e.term.value) == "self"]
+        if not stores:
+            continue
+        v = stores[-1].x["value"]
+        vt = xshow(v, evs)
+        none_fact = None
+        for b in p.of("branch"):
+            t_, pol_ = b.term, b.x["taken"]
+            while isinstance(t_, ast.UnaryOp) and isinstance(t_.op, ast.Not):
+                t_, pol_ = t_.operand, not pol_
+            if isinstance(t_, ast.Compare) and len(t_.ops) == 1 and show(t_.left) == prm and isinstance(t_.comparators[0], ast.Constant) \
+                    and t_.comparators[0].value is None and isinstance(t_.ops[0], (ast.Is, ast.IsNot)):
+                none_fact = pol_ if isinstance(t_.ops[0], ast.Is) else not pol_
+            elif show(t_) == prm:
+                bad.append("the given mapping is tested for truthiness (an empty dict given by the caller would be replaced)")
+        if isinstance(v, ast.IfExp):
+            ok = show(v.test) in (f"{prm} is not None", f"{prm} is None") and {show(v.body), show(v.orelse)} == {prm, "{}"}
+            seen_fresh = seen_given = ok
+            if not ok:
+                bad.append(f"self._states = {vt}")
+        elif none_fact is True:
+            seen_fresh = seen_fresh or vt in ("{}", "dict()")
+            if vt not in ("{}", "dict()"):
+                bad.append(f"without argument: self._states = {vt}")
+        elif none_fact is False:
+            seen_given = seen_given or vt == prm
+            if vt != prm:
+                bad.append(f"with a mapping: self._states = {vt}")
+        else:
+            bad.append(f"self._states = {vt} without a None-test of the argument")
+    rep.check(seen_fresh and seen_given and not bad, "C16.fresh", st.loc(), "States() without argument owns a fresh dict (no shared default)",
+              st.key, "; ".join(sorted(set(bad))) or "fresh dict when None, the given mapping otherwise")
     for f in ctx.p.all_functions():
         a = f.node.args if not isinstance(f.node, ast.Lambda) else None
         if a is None:
